@@ -118,6 +118,7 @@ type Cluster struct {
 	// ZKErr, if set, is returned by ZKLocate.
 	ZKErr  error
 	ZKHold chan struct{}
+	ZKMark func()
 	// InCellblock: put result cells in the cellblock (true) or inline in protobuf (false).
 	InCellblock bool
 	// DialHook, if set, is called before a dial is processed (may block: a slow connect).
@@ -435,6 +436,9 @@ func (c *Cluster) Dial(ctx context.Context, network, addr string) (net.Conn, err
 // ZKLocate answers the two ZooKeeper lookups (meta location, master location).
 func (c *Cluster) ZKLocate(resource string) (string, error) {
 	c.Trace.Emit("zk", "resource", resource)
+	if m := c.ZKMark; m != nil {
+		m()
+	}
 	if h := c.ZKHold; h != nil {
 		<-h
 	}
@@ -491,7 +495,10 @@ func (c *Cluster) regionProblemLocked(rs *RS, name []byte) (*Region, string) {
 func (c *Cluster) handle(rs *RS, sc *ServerConn, req *Request) {
 	name := regionOf(req)
 	c.Trace.Emit("req", "conn", sc.ID, "addr", rs.Addr, "id", int(req.CallID), "method", req.Method, "region", string(name), "prio", int(req.Priority))
-	for _, rule := range c.Rules {
+	c.mu.Lock()
+	rules := c.Rules
+	c.mu.Unlock()
+	for _, rule := range rules {
 		if d := rule(c, rs, sc, req, name); d != nil {
 			if d.Pass {
 				break
@@ -878,4 +885,10 @@ func (c *Cluster) serveMulti(rs *RS, sc *ServerConn, req *Request, p *pb.MultiRe
 	}
 	c.Trace.Emit("resp", "conn", sc.ID, "id", int(req.CallID), "exc", "")
 	sc.Send(Response{CallID: req.CallID, Msg: resp, CellBlock: cb})
+}
+
+// IsProbe recognises the establisher's probe: an exists-only Get.
+func IsProbe(req *Request) bool {
+	g, ok := req.Param.(*pb.GetRequest)
+	return ok && g.GetGet().GetExistenceOnly()
 }
